@@ -77,6 +77,11 @@ def model_request(workdir, docset, caller, value_texts=()):
     E = uaconv.float_table([t for vt in value_texts for t in uaconv.texts_of_xml('<V xmlns="%s">%s</V>' % (uaconv.TYPES_NS, vt))]) + uaconv.gt_entries(["2.0", "1.0", "0.0"])
     return [Sym("parse_files"), E, list(caller or []), [doc_sx(os.path.join(workdir, n), d) for n, d in docset]]
 
+def model_request_text(workdir, files, caller, value_texts=()):
+    """files: [(name, XML text)] - the very bytes the implementation parses; the model reads them with its own XML reader"""
+    E = uaconv.float_table([t for vt in value_texts for t in uaconv.texts_of_xml('<V xmlns="%s">%s</V>' % (uaconv.TYPES_NS, vt))]) + uaconv.gt_entries(["2.0", "1.0", "0.0"])
+    return [Sym("parse_text_files"), E, list(caller or []), [[os.path.join(workdir, n), t] for n, t in files]]
+
 def dec_model(a):
     a = vlib.untext(a)
     if a[0] == "ok":
